@@ -251,7 +251,8 @@ WALL = [{"entry": "Retry", "wall": "jump", "wallgroup": "s"},
 
 for _p in ("C01", "C02", "C03", "C04", "C05", "C10", "C11", "C13", "C14", "C16"):
     profile(_p, mc=f"RetryMC_{_p}.cfg", export=f"RetryMC_{_p}x.cfg",
-            variants=WALL if _p == "C02" else (FOUR + TIMEOUT_VARIANTS if _p in ("C13", "C01") else FOUR),
+            variants=WALL if _p == "C02" else (FOUR + TIMEOUT_VARIANTS if _p in ("C13", "C01") else
+                                               (FOUR[:3] if _p == "C10" else FOUR)),
             n_random={"quick": 1500, "thorough": 30000})
 
 
